@@ -48,6 +48,9 @@ def relational_ops(rep, seed):
         ("prod", lambda x: algopy.prod(x[0] + 1.5)), ("max", lambda x: UTPM.max(x[0])), ("pow_real", lambda x: (x * x + 1.) ** 1.5),
         ("x_pow_y", lambda x: (x * x + 1.) ** x), ("rpow", lambda x: 2.0 ** x), ("div", lambda x: x / (x * x + 2.)),
         ("const_div", lambda x: 3.0 / (x * x + 2.)), ("imul_self", lambda x: imul_self(x)), ("idiv", lambda x: idiv(x)),
+        ("div_tiny_divisor", lambda x: x / ((x * x + 2.) * 1e-170)), ("div_huge_divisor", lambda x: x / ((x * x + 2.) * 1e170)),
+        ("sqrt_tiny", lambda x: algopy.sqrt((x * x + 2.) * 1e-200)), ("log_tiny", lambda x: algopy.log((x * x + 2.) * 1e-200)),
+        ("x_pow_scalar_polynomial", lambda x: (x * x + 1.) ** sparse_exponent(x)),
         ("abs_sign", lambda x: algopy.absolute(x) * algopy.sign(x)), ("abs_at_zero", lambda x: abs(zero_some(x))),
         ("extract_jacobian", lambda x: wrap(UTPM.extract_jacobian(x * x + x))), ("extract_jac_vec", lambda x: wrap(UTPM.extract_jac_vec((x * x + x)[:, :1]))),
         ("extract_hessian", lambda x: wrap(UTPM.extract_hessian(3, fix6(x)))),
@@ -64,6 +67,13 @@ def relational_ops(rep, seed):
     def eigh_resid(al, A):
         l, Q = al.eigh(A)
         return al.dot(A, Q) - al.dot(Q, al.diag(l))
+
+    def sparse_exponent(x):
+        # a 0-d polynomial exponent, different per direction, whose first-order coefficient is zero
+        r = x[0, 0].clone(); r.data[0] = numpy.arange(1, r.data.shape[1] + 1) * 0.75
+        if r.data.shape[0] > 1:
+            r.data[1] = 0.0
+        return r
 
     def zero_some(x):
         # zeroth coefficient exactly zero in some entries: the result may not depend on coefficients above the requested order
